@@ -223,6 +223,11 @@ def gadget_networks() -> dict[str, list[list[int]]]:
     g["gated_and"] = bn.from_exprs(3, [lambda s: s[0] and (s[1] or s[2]), lambda s: s[1], lambda s: not s[2]])
     g["gated_or4"] = bn.from_exprs(4, [lambda s: s[0] or (s[1] and s[2] and s[3]), lambda s: s[2], lambda s: s[1], lambda s: not s[3]])
     g["two_gates"] = bn.from_exprs(4, [lambda s: s[0] or (s[2] and s[3]), lambda s: s[1] and (s[2] or not s[3]), lambda s: not s[3], lambda s: not s[2]])
+    # a strongly connected module with nested trap spaces; unions of such modules have several source SCCs whose own
+    # succession diagrams have inner (non-root, non-minimal) nodes
+    g["nscc"] = bn.from_exprs(3, [lambda s: s[1], lambda s: s[0] or s[2], lambda s: s[0] and s[2]])
+    g["nscc_latch"] = bn.disjoint_union(g["nscc"], g["latch"])
+    g["nscc2"] = bn.disjoint_union(g["nscc"], g["nscc"])
     g["xnor_latch"] = bn.disjoint_union(g["xnor2"], g["latch"])
     g["xnor_2latch"] = bn.disjoint_union(g["xnor_latch"], g["latch"])
     g["xnor_3latch"] = bn.disjoint_union(g["xnor_2latch"], g["latch"])
